@@ -71,6 +71,10 @@ add("C06", "exploration", "field-by-field recomputation monitor (independent snp
     "Generated requests (images 64 KiB..2 MiB, technology subsets, explicit/default/non-GCE VMSA counts, both products, machine-shape lists with and without early accept incl. unknown names, SVN, IDs, SVSM, provenance, timestamps; images with SNP-only or TDX-only valid metadata) are run through endorse.GoldenMeasurement and endorse.SignDoc with a bootstrapped authority; every field of the message and of the re-parsed signed payload is compared with an independent recomputation, and requests that cannot be measured must fail instead of yielding placeholder or left-over entries.",
     TB_GO + " Measurement values rely on the C04/C05 reference models.", "DESIGN.md section 3 C06")
 
+add("C08", "exploration", "resource monitor (panic / thread CPU / allocated bytes, allocation watchdog, child-process death attribution) over hostile firmware images at 12 entry points",
+    "An own byte-level image builder (validated byte for byte against the repository's example image) produces well-formed specs whose GUID-table, SEV-metadata and TDVF-metadata fields are replaced by boundary values (0, 1, size+-1, 2^31, 2^32-1, wrapping counts, 2^40..2^64-4096, misalignments), plus directed cases and blind byte edits; every parsing / measuring entry point runs under core.Guard with budgets proportional to the image size (10 s + 2 s/MiB CPU, 256 MiB + 512 B/byte allocation, times the number of measurements requested); panics, budget excess, non-termination and fatal out-of-memory deaths (attributed to the logged case) are violations.",
+    TB_GO + " Budgets are at least 7x above the worst legitimate case measured.", "DESIGN.md section 3 C08")
+
 props = [json.loads(l) for l in open(os.path.join(V, 'properties.jsonl'))]
 checks, na = [], []
 for p in props:
